@@ -97,7 +97,20 @@ def main():
     claimed = [p for p in sorted(T) if p in out]
     checks = []
     for p in claimed:
-        t = T[p]
+        t = dict(T[p])
+        # the analyser's own rule table (from the last evidence file): rules added after the seeded rounds are listed here
+        try:
+            ev = json.load(open(f"/verif/evidence/{p}.json"))
+            rules = []
+            for line in ev["coverage"]["explanation"].split("\n"):
+                rid, _, rest = line.partition(" (")
+                _, _, text = rest.partition("): ")
+                if rid.startswith(p + ".R") and text:
+                    rules.append(f"{rid.split('.')[1]}: {text}")
+            if rules:
+                t["text"] = t["text"] + " Full rule table as run (each an every-path / every-site obligation over /repo's current source; DESIGN.md §16 says which seeded change motivated which): " + " | ".join(rules)
+        except Exception:
+            pass
         checks.append({
             "property_id": p,
             "quick_cmd": f"./check.sh {p} quick",
